@@ -122,7 +122,7 @@ def dump_db(path: Path) -> list[list[str]]:
 def exec_ids(path: Path) -> list[str]:
     c = sqlite3.connect(str(path))
     out = [r[0] for r in c.execute("select e.id from execution e join job j on j.id = e.job_id "
-                                   "order by j.start_time, e.id")]
+                                   "order by j.start_time, e.rowid")]
     c.close()
     return out
 
@@ -169,14 +169,16 @@ class Repo:
         from .. import simloop
 
         c = sqlite3.connect(str(self.path))
-        ents = ([("Execution", r[0]) for r in c.execute("select id from execution order by id")]
-                + [("Job", r[0]) for r in c.execute("select id from job order by start_time, id limit 3")]
+        # deterministic orders only (ids are uuids): start order / insertion order
+        ents = ([("Execution", r[0]) for r in c.execute(
+                    "select e.id from execution e join job j on j.id = e.job_id order by j.start_time, e.rowid")]
+                + [("Job", r[0]) for r in c.execute("select id from job order by start_time, rowid limit 3")]
                 + [("Value", r[0]) for r in c.execute(
-                    "select value_hash from value where type not in ('redun.Task', ?) order by value_hash limit 4", (ERR,))]
-                + [("Task", r[0]) for r in c.execute("select hash from task order by hash limit 2")])
+                    "select value_hash from value where type not in ('redun.Task', ?) order by rowid limit 4", (ERR,))]
+                + [("Task", r[0]) for r in c.execute("select hash from task order by rowid limit 2")])
         tagged = [(r[0], r[1], r[2]) for r in c.execute(
             "select entity_type, entity_id, key from tag where is_current = 1 and entity_id != '' "
-            "and key in ('env', 'owner', 'k') order by tag_hash")]
+            "and key in ('env', 'owner', 'k') order by rowid")]
         c.close()
         if not ents:
             return None
@@ -248,7 +250,7 @@ def transfer(ctx: Ctx, src: Repo, dst: Repo, roots: Optional[list[str]], channel
             simloop.close_backend(bd)
     if channel == "cli-export-import":
         f = ctx.tmp(f"cliexport_{src.name}_{dst.name}.jsonl")
-        cli(["-c", str(src.dir), "export", "--file", str(f)] + [r[:10] for r in (roots or [])])
+        cli(["-c", str(src.dir), "export", "--file", str(f)] + list(roots or []))  # export takes full ids
         cli(["-c", str(dst.dir), "import", "--file", str(f)])
         return -1
     if channel == "cli-push":
@@ -273,17 +275,19 @@ def transfer(ctx: Ctx, src: Repo, dst: Repo, roots: Optional[list[str]], channel
 # ------------------------------------------------------------------------------------------------
 # cache lookups through the public backend method
 # ------------------------------------------------------------------------------------------------
-def lookup_queries(src_path: Path, root_closure_calls: Optional[set] = None, limit: int = 6) -> list[dict]:
+def lookup_queries(src_path: Path, dst_path: Path, limit: int = 6) -> list[dict]:
     """(task, args) of call nodes with a non-error result in the source; cur = all task hashes, and
     all but one task of the recorded subtree (a child task's code changed)."""
     c = sqlite3.connect(str(src_path))
-    tasks = [r[0] for r in c.execute("select hash from task order by hash")]
+    cd = sqlite3.connect(str(dst_path))
+    tasks = sorted({r[0] for r in c.execute("select hash from task")} | {r[0] for r in cd.execute("select hash from task")})
     qs = []
     for call, th, ah in c.execute(
             "select c.call_hash, c.task_hash, c.args_hash from call_node c join value v on v.value_hash = c.value_hash "
             "where v.type != ? order by c.call_hash", (ERR,)):
         sub = [r[0] for r in c.execute("select task_hash from call_subtree_task where call_hash = ? order by task_hash", (call,))]
-        ev = c.execute("select eval_hash from evaluation where task_hash = ? and args_hash = ?", (th, ah)).fetchone()
+        ev = (c.execute("select eval_hash from evaluation where task_hash = ? and args_hash = ?", (th, ah)).fetchone()
+              or cd.execute("select eval_hash from evaluation where task_hash = ? and args_hash = ?", (th, ah)).fetchone())
         others = [t for t in sub if t != th]
         qs.append({"task": th, "args": ah, "eval": ev[0] if ev else "0" * 40, "cur": tasks, "shallow": 1})
         qs.append({"task": th, "args": ah, "eval": ev[0] if ev else "0" * 40, "cur": tasks, "shallow": 0})
@@ -291,6 +295,7 @@ def lookup_queries(src_path: Path, root_closure_calls: Optional[set] = None, lim
             qs.append({"task": th, "args": ah, "eval": ev[0] if ev else "0" * 40,
                        "cur": [t for t in tasks if t != others[0]], "shallow": 1})
     c.close()
+    cd.close()
     # keep those with a changed-subtree variant first
     qs.sort(key=lambda q: (len(q["cur"]) == len(tasks), q["task"], q["args"], -q["shallow"]))
     return qs[:limit * 3]
@@ -324,13 +329,24 @@ def traced_transfer(ctx: Ctx, src: Repo, dst: Repo, root_idx: Optional[list[int]
     roots = [eids[i] for i in root_idx if i < len(eids)] if root_idx is not None else None
     s = dump_db(src.path)
     d0 = dump_db(dst.path)
-    qs = lookup_queries(src.path) if lookups else []
+    qs = lookup_queries(src.path, dst.path) if lookups else []
     l_src = do_lookups(src.path, qs)
     l_d0 = do_lookups(dst.path, qs)
-    n1 = transfer(ctx, src, dst, roots, channel)
-    d1 = dump_db(dst.path)
-    l_d1 = do_lookups(dst.path, qs)
-    n2 = transfer(ctx, src, dst, roots, channel)
+    try:
+        n1 = transfer(ctx, src, dst, roots, channel)
+        d1 = dump_db(dst.path)
+        l_d1 = do_lookups(dst.path, qs)
+        n2 = transfer(ctx, src, dst, roots, channel)
+    except Exception as e:  # a transfer (or its repetition) must not fail on these repositories
+        from ..core import MachineryError
+
+        if isinstance(e, MachineryError):
+            raise
+        ctx.violation(f"{channel} {src.name}->{dst.name} roots={root_idx}: transfer raised {type(e).__name__}: "
+                      f"{str(e)[:300]}", {"origin": {"src": src.name, "dst": dst.name, "channel": channel,
+                                                      "root_idx": root_idx, "src_plan": copy.deepcopy(src.plan),
+                                                      "dst_plan": copy.deepcopy(dst.plan)}})
+        return {}
     d2 = dump_db(dst.path)
     ctx.require(dump_db(src.path) == s, "a transfer modified its source repository")
     eff_roots = roots if roots else eids
@@ -364,6 +380,15 @@ def validate(ctx: Ctx, traces: list, what: str) -> dict[int, dict]:
     return v
 
 
+def _viol(ctx: Ctx, stats: dict, what: str, replay: Any, key: Optional[str] = None) -> None:
+    """One witness per deviation key (the counts are in stats); everything unkeyed is reported."""
+    if key is not None:
+        if key in stats.setdefault("_keys", []):
+            return
+        stats["_keys"].append(key)
+    ctx.violation(what, replay, key=key)
+
+
 def judge(ctx: Ctx, v: dict, meta: dict, stats: dict) -> None:
     ctx.count_impl_trace()
     ctx.count_eval(13)
@@ -374,48 +399,48 @@ def judge(ctx: Ctx, v: dict, meta: dict, stats: dict) -> None:
     if not v["lookup_model"]:
         stats["lookup_model_drift"] += 1
     if not v["rows"]:
-        ctx.violation(head + "a record of the closure does not have the same rows in the destination "
+        _viol(ctx, stats, head + "a record of the closure does not have the same rows in the destination "
                       "(execution / call node / argument / value / file / task / tag / tag-edit tables)",
                       {"origin": origin, "verdict": v})
     if not v["order"]:
         if v["childsets"]:
             stats["order_lost"] += 1
-            ctx.violation(head + "call nodes arrive with the same children but in a different call_order "
+            _viol(ctx, stats, head + "call nodes arrive with the same children but in a different call_order "
                           "(sibling order of the call graph is not preserved)",
                           {"origin": origin, "verdict": v}, key=KEY_ORDER)
         else:
-            ctx.violation(head + "child edges of a transferred call node differ from the source's",
+            _viol(ctx, stats, head + "child edges of a transferred call node differ from the source's",
                           {"origin": origin, "verdict": v})
     if not v["jobs"]:
         if v["stale_only"]:
             stats["stale_job"] += 1
-            ctx.violation(head + "a job row that existed in the destination (sent while running) keeps "
+            _viol(ctx, stats, head + "a job row that existed in the destination (sent while running) keeps "
                           "end_time / cached / call_hash = NULL although the source has finished it",
                           {"origin": origin, "verdict": v}, key=KEY_STALE)
         else:
-            ctx.violation(head + "a job row of the closure differs between source and destination",
+            _viol(ctx, stats, head + "a job row of the closure differs between source and destination",
                           {"origin": origin, "verdict": v})
     if not v["tags"]:
-        ctx.violation(head + "a tag of the closure has a different current / superseded status in the "
+        _viol(ctx, stats, head + "a tag of the closure has a different current / superseded status in the "
                       "destination than its edit history implies", {"origin": origin, "verdict": v})
     if not v["mono"]:
-        ctx.violation(head + "the transfer removed destination rows or added rows outside the closure",
+        _viol(ctx, stats, head + "the transfer removed destination rows or added rows outside the closure",
                       {"origin": origin, "verdict": v})
     if not v["idem"]:
-        ctx.violation(head + f"repeating the transfer changed the destination or reported new records ({meta['n2']})",
+        _viol(ctx, stats, head + f"repeating the transfer changed the destination or reported new records ({meta['n2']})",
                       {"origin": origin, "verdict": v})
     if not v["count"] and meta["n1"] != -1:
-        ctx.violation(head + f"put_records reported {meta['n1']} new records, the closure holds {v['nnew']} new ones",
+        _viol(ctx, stats, head + f"put_records reported {meta['n1']} new records, the closure holds {v['nnew']} new ones",
                       {"origin": origin, "verdict": v})
     if not v["cache"]:
         if v["sub_only"]:
             stats["stale_shallow_hit"] += 1
-            ctx.violation(head + "after the transfer the destination's shallow (ULTIMATE) lookup serves a call "
+            _viol(ctx, stats, head + "after the transfer the destination's shallow (ULTIMATE) lookup serves a call "
                           "node although a task of its subtree is not current; the source refuses it "
                           "(CallSubtreeTask rows are not transferred)", {"origin": origin, "verdict": v},
                           key=KEY_SUBTREE)
         else:
-            ctx.violation(head + "the destination serves a cache lookup neither it nor the source served",
+            _viol(ctx, stats, head + "the destination serves a cache lookup neither it nor the source served",
                           {"origin": origin, "verdict": v})
 
 
@@ -521,7 +546,7 @@ DEV_INV = {"ChildOrderUnspecified": "ChildOrderFaithful", "StaleJobRowKept": "Jo
 
 
 def model_check(ctx: Ctx) -> None:
-    me, mt, mx = ctx.pick((1, 1, 2), (2, 2, 3))
+    me, mt, mx = ctx.pick((2, 1, 2), (2, 2, 3))
     jobs = []
     # (a) repaired world: the whole contract; (b) as built: everything but the three deviation
     # invariants; (c) each deviation alone breaks exactly its own invariant
@@ -597,6 +622,7 @@ def run(ctx: Ctx) -> None:
     if mid:
         ctx.sample({"transfer": "sync amid->bmid, first while the workflow runs, again after it ended",
                     "verdict": verdicts[mid]})
+    stats.pop("_keys", None)
     ctx.note("stats", stats)
 
 
